@@ -78,20 +78,38 @@ class Lock:
 
 
 # ------------------------------------------------------------------ translator
-def step_translator():
-    out = os.path.join(COQ, "Gen", "OpTable.v")
-    tmp = os.path.join(BUILD, "OpTable.v.new")
+def _translate(script, src_rel, name, json_name):
+    """Run one translator.  The generated file is replaced only when the translation succeeds;
+    when it fails and no generated file exists yet (a fresh restore), the committed baseline
+    (generated from the pinned source) is put in its place so that the rest still builds and
+    the search for a failing input can run - the failure itself is reported as a broken tie."""
+    out = os.path.join(COQ, "Gen", name)
+    tmp = os.path.join(BUILD, name + ".new")
     os.makedirs(os.path.dirname(out), exist_ok=True)
     os.makedirs(BUILD, exist_ok=True)
-    rc, txt = sh([sys.executable, os.path.join(VERIF, "tools", "gen_optable.py"),
-                  os.path.join(REPO, "src", "op", "mod.rs"), tmp, os.path.join(BUILD, "optable.json")], timeout=60)
+    rc, txt = sh([sys.executable, os.path.join(VERIF, "tools", script),
+                  os.path.join(REPO, *src_rel), tmp, os.path.join(BUILD, json_name)], timeout=60)
     if rc != 0:
+        if not os.path.exists(out):
+            shutil.copy(os.path.join(VERIF, "tools", "baseline", name), out)
         return False, txt.strip()
     new = open(tmp).read()
     old = open(out).read() if os.path.exists(out) else None
     if new != old:
         shutil.move(tmp, out)
     return True, ""
+
+
+def step_translator():
+    return _translate("gen_optable.py", ("src", "op", "mod.rs"), "OpTable.v", "optable.json")
+
+
+# properties whose theorems rest on the character tables of js_op.rs
+CHARTABLE_PROPS = {"C07", "C09", "C10"}
+
+
+def step_chartable():
+    return _translate("gen_chartable.py", ("src", "js_op.rs"), "CharTable.v", "chartable.json")
 
 
 # ------------------------------------------------------------------ Coq
@@ -299,6 +317,8 @@ def known_class_of(prop, rec):
 
 # ------------------------------------------------------------------ source fingerprints
 FINGERPRINTS = os.path.join(VERIF, "source_fingerprints.json")
+# the harness adds the boundaries of the source's own character tables to its test characters
+os.environ["JLH_TABLES"] = os.path.join(BUILD, "chartable.json")
 
 
 def source_files():
@@ -331,6 +351,13 @@ def changed_sources():
 
 
 def write_fingerprints():
+    # the generated tables of this tree become the baselines used when a translation fails
+    for step, name in ((step_translator, "OpTable.v"), (step_chartable, "CharTable.v")):
+        ok, msg = step()
+        if not ok:
+            log("translator failed:", msg)
+            return 1
+        shutil.copy(os.path.join(COQ, "Gen", name), os.path.join(VERIF, "tools", "baseline", name))
     rc, head = sh(["git", "-C", REPO, "rev-parse", "HEAD"])
     write_json(FINGERPRINTS, {"repo_head": head.strip(), "files": current_fingerprints()})
     return 0
@@ -383,6 +410,9 @@ def setup():
     ok, msg = step_translator()
     if not ok:
         log("translator failed (setup continues; checks will report it):", msg)
+    ok, msg = step_chartable()
+    if not ok:
+        log("character-table translator failed (setup continues; C07/C09/C10 will report it):", msg)
     with Lock("coq"):
         ok, msg = step_coq_build([], timeout=3400)
     if not ok:
